@@ -22,7 +22,8 @@
    Sequence numbers are assigned consecutively by the DataWriter (sn = last + 1).  A sample is
    represented by its number of fragments (1 = plain DATA, >= 2 = DATAFRAGs); payload bytes are the
    business of C05.  Wall-clock delays (nack_response_delay, repair spacing, the 10 s fragment
-   garbage collection) are outside the model: a timer is an op that may fire at any point. *)
+   garbage collection) are outside the model: a timer is an op that may fire at any point, and the
+   fragment garbage collection is a fault op that drops every assembly buffer. *)
 From Coq Require Import List ZArith Bool Lia.
 From RD Require Import Common.Corr.
 Import ListNotations.
@@ -352,7 +353,8 @@ Inductive op :=
 | OCacheClean                (* TimedEvent::CacheCleaning *)
 | ODeliver (i : nat)         (* the i-th in-flight datagram arrives *)
 | ODrop (i : nat)            (* ... is lost *)
-| ODup (i : nat).            (* ... arrives and stays in flight (duplicate) *)
+| ODup (i : nat)             (* ... arrives and stays in flight (duplicate) *)
+| OFragGC.                   (* Reader::garbage_collect_fragments drops the (stale) assembly buffers *)
 
 Definition lift_w (s : sys) (wo : wst * list dgram) : sys := mkS (fst wo) (sr s) (net s ++ snd wo).
 
@@ -374,6 +376,8 @@ Definition step (depth : Z) (s : sys) (o : op) : sys :=
       | Some d => recv s d
       | None => s
       end
+  | OFragGC =>
+      mkS (sw s) (mkR (r_base (sr s)) (r_known (sr s)) (r_hbc (sr s)) (r_anc (sr s)) [] (r_got (sr s))) (net s)
   end.
 Definition run_ops (depth : Z) (s : sys) (ops : list op) : sys := fold_left (step depth) ops s.
 
